@@ -113,4 +113,8 @@ def setupPod (h : Host) (p : Pod) : Host :=
   { rules := p.hostRules.foldl ensureRule h.rules,
     routes := (p.eniRoutes ++ p.vethRoutes).foldl ensureRoute h.routes }
 
+/-- the daemon's periodic pass over one pod (`ruleSync`, run from `gcPods`): for every interface of the pod - each with its own
+host veth, found by the interface's name - the host side of the setup is asserted again -/
+def ruleSync (h : Host) (ifaces : List Pod) : Host := ifaces.foldl setupPod h
+
 end Terway.Fib
